@@ -160,7 +160,7 @@ theorem natDigits_head (n : Nat) : ∃ c cs, natDigits n = c :: cs ∧ isDigit c
 theorem decValue_zero (neg : Bool) (ip fp : Str) :
     decValue neg ip fp 0 =
       (if neg then -1 else 1) * (((numOf ip * 10 ^ fp.length + numOf fp : Nat) : Rat) / ((10 ^ fp.length : Nat) : Rat)) := by
-  cases neg <;> simp [decValue]
+  cases neg <;> simp [decValue, scale10]
 
 theorem roundTo_eq (p : Nat) (x : Rat) :
     roundTo p x = (if x < 0 then -1 else 1) * ((scaledAbs p x : Nat) : Rat) / ((10 ^ p : Nat) : Rat) := by
@@ -351,6 +351,683 @@ theorem split_join (toks : List Str) (h : ∀ t ∈ toks, IsTok t) :
       have e : [' '].intercalate (t :: u :: us) = t ++ ' ' :: [' '].intercalate (u :: us) := by
         simp [List.intercalate, List.intersperse]
       rw [e, splitWs_tok_ws (h t (by simp)) isWs_space, this]
+
+
+
+/-! ## rounding: error bound and idempotence -/
+
+theorem rhe_mul_self (a d : Nat) (hd : 0 < d) : rhe (a * d) d = a := by
+  unfold rhe
+  simp [Nat.mul_div_cancel _ hd, Nat.mul_mod_left, hd]
+
+/-- `rhe n d` is within half a unit of `n / d` -/
+theorem rhe_spec (n d : Nat) (hd : 0 < d) :
+    2 * (rhe n d * d) ≤ 2 * n + d ∧ 2 * n ≤ 2 * (rhe n d * d) + d := by
+  have h1 := Nat.div_add_mod n d
+  have h2 := Nat.mod_lt n hd
+  have h3 : (n / d + 1) * d = d * (n / d) + d := by ring
+  have h4 : n / d * d = d * (n / d) := by ring
+  unfold rhe
+  simp only
+  split
+  · rw [h4]; omega
+  · split
+    · rw [h3]; omega
+    · split
+      · rw [h4]; omega
+      · rw [h3]; omega
+
+theorem ten_pow_pos_rat (p : Nat) : (0 : Rat) < ((10 ^ p : Nat) : Rat) := by
+  positivity
+
+theorem rat_eq_natAbs (x : Rat) :
+    x = (if x < 0 then -1 else 1) * ((x.num.natAbs : Nat) : Rat) / ((x.den : Nat) : Rat) := by
+  have hden : (0 : Rat) < (x.den : Rat) := by exact_mod_cast x.den_pos
+  have hx : x = (x.num : Rat) / (x.den : Rat) := (Rat.num_div_den x).symm
+  split
+  · rename_i h
+    have hn : x.num < 0 := Rat.num_neg.2 h
+    have : ((x.num.natAbs : Nat) : Rat) = -(x.num : Rat) := by
+      have h' : ((x.num.natAbs : Nat) : Int) = -x.num := by omega
+      rw [← Int.cast_natCast, h', Int.cast_neg]
+    rw [this]; rw [hx] at *; simp
+    conv_lhs => rw [hx]
+  · rename_i h
+    have hn : 0 ≤ x.num := Rat.num_nonneg.2 (not_lt.1 h)
+    have : ((x.num.natAbs : Nat) : Rat) = (x.num : Rat) := by
+      have h' : ((x.num.natAbs : Nat) : Int) = x.num := by omega
+      rw [← Int.cast_natCast, h']
+    rw [this]; simp
+    conv_lhs => rw [hx]
+
+theorem round_key (r a t d s : Rat) (hp : 0 < t) (hdq : 0 < d)
+    (h1q : 2 * (r * d) ≤ 2 * (a * t) + d) (h2q : 2 * (a * t) ≤ 2 * (r * d) + d)
+    (hs : s = 1 ∨ s = -1) : |s * r / t - s * a / d| ≤ 1 / (2 * t) := by
+  have e : s * r / t - s * a / d = s * (r * d - a * t) / (t * d) := by
+    field_simp
+  rw [e, abs_div, abs_mul, abs_of_pos (mul_pos hp hdq)]
+  have hs1 : |s| = 1 := by rcases hs with h | h <;> simp [h]
+  rw [hs1, one_mul, div_le_div_iff₀ (mul_pos hp hdq) (by positivity)]
+  have h3 : |r * d - a * t| ≤ d / 2 := by
+    rw [abs_le]; constructor <;> linarith
+  calc |r * d - a * t| * (2 * t) ≤ d / 2 * (2 * t) := by
+        apply mul_le_mul_of_nonneg_right h3 (by positivity)
+    _ = 1 * (t * d) := by ring
+
+/-- `"%.pf"` is correctly rounded: the printed number is within half a unit of the last place -/
+theorem roundTo_error (p : Nat) (x : Rat) :
+    |roundTo p x - x| ≤ 1 / (2 * ((10 ^ p : Nat) : Rat)) := by
+  have hd : 0 < x.den := x.den_pos
+  have hdq : (0 : Rat) < (x.den : Rat) := by exact_mod_cast hd
+  have hp := ten_pow_pos_rat p
+  obtain ⟨h1, h2⟩ := rhe_spec (x.num.natAbs * 10 ^ p) x.den hd
+  have h1q : (2 : Rat) * ((scaledAbs p x : Nat) * (x.den : Rat)) ≤ 2 * ((x.num.natAbs : Nat) * ((10 ^ p : Nat) : Rat)) + x.den := by
+    unfold scaledAbs; exact_mod_cast h1
+  have h2q : (2 : Rat) * ((x.num.natAbs : Nat) * ((10 ^ p : Nat) : Rat)) ≤ 2 * ((scaledAbs p x : Nat) * (x.den : Rat)) + x.den := by
+    unfold scaledAbs; exact_mod_cast h2
+  have hX := rat_eq_natAbs x
+  have hR := roundTo_eq p x
+  by_cases hx : x < 0
+  · rw [if_pos hx] at hX hR
+    calc |roundTo p x - x| = |(-1) * ((scaledAbs p x : Nat) : Rat) / ((10 ^ p : Nat) : Rat)
+            - (-1) * ((x.num.natAbs : Nat) : Rat) / (x.den : Rat)| := by rw [hR, ← hX]
+      _ ≤ _ := round_key _ _ _ _ _ hp hdq h1q h2q (Or.inr rfl)
+  · rw [if_neg hx] at hX hR
+    calc |roundTo p x - x| = |1 * ((scaledAbs p x : Nat) : Rat) / ((10 ^ p : Nat) : Rat)
+            - 1 * ((x.num.natAbs : Nat) : Rat) / (x.den : Rat)| := by rw [hR, ← hX]
+      _ ≤ _ := round_key _ _ _ _ _ hp hdq h1q h2q (Or.inl rfl)
+
+
+
+theorem scaledAbs_of_decimal (p : Nat) (k : Int) :
+    scaledAbs p ((k : Rat) / ((10 ^ p : Nat) : Rat)) = k.natAbs := by
+  set y : Rat := (k : Rat) / ((10 ^ p : Nat) : Rat) with hy
+  have hp := ten_pow_pos_rat p
+  have hdq : (0 : Rat) < (y.den : Rat) := by exact_mod_cast y.den_pos
+  have h0 : (y.num : Rat) / (y.den : Rat) = (k : Rat) / ((10 ^ p : Nat) : Rat) := by
+    rw [Rat.num_div_den]
+  have h1 : (y.num : Rat) * ((10 ^ p : Nat) : Rat) = (k : Rat) * (y.den : Rat) := by
+    rw [div_eq_div_iff (ne_of_gt hdq) (ne_of_gt hp)] at h0; exact h0
+  have h2 : y.num * ((10 ^ p : Nat) : Int) = k * (y.den : Int) := by exact_mod_cast h1
+  have h3 : y.num.natAbs * 10 ^ p = k.natAbs * y.den := by
+    have := congrArg Int.natAbs h2
+    simpa [Int.natAbs_mul] using this
+  unfold scaledAbs
+  rw [h3, rhe_mul_self _ _ y.den_pos]
+
+/-- a number with `p` decimals is printed exactly -/
+theorem roundTo_of_decimal (p : Nat) (k : Int) :
+    roundTo p ((k : Rat) / ((10 ^ p : Nat) : Rat)) = (k : Rat) / ((10 ^ p : Nat) : Rat) := by
+  have hp := ten_pow_pos_rat p
+  rw [roundTo_eq, scaledAbs_of_decimal]
+  by_cases hk : k < 0
+  · have : (k : Rat) / ((10 ^ p : Nat) : Rat) < 0 := div_neg_of_neg_of_pos (by exact_mod_cast hk) hp
+    rw [if_pos this]
+    have h' : ((k.natAbs : Nat) : Int) = -k := by omega
+    rw [← Int.cast_natCast, h', Int.cast_neg]; ring
+  · have : ¬ (k : Rat) / ((10 ^ p : Nat) : Rat) < 0 := by
+      rw [not_lt]; exact div_nonneg (by exact_mod_cast (not_lt.1 hk)) hp.le
+    rw [if_neg this]
+    have h' : ((k.natAbs : Nat) : Int) = k := by omega
+    rw [← Int.cast_natCast, h']; ring
+
+/-- rounding twice = rounding once: a printed number re-prints identically -/
+theorem roundTo_idem (p : Nat) (x : Rat) : roundTo p (roundTo p x) = roundTo p x := by
+  unfold roundTo
+  exact roundTo_of_decimal p _
+
+theorem fmtFbody_roundTo_abs (p : Nat) (x : Rat) : scaledAbs p (roundTo p x) = scaledAbs p x := by
+  unfold roundTo
+  rw [scaledAbs_of_decimal]
+  split <;> simp
+
+
+
+/-! ## lines ↔ text -/
+
+def isNL (c : Char) : Bool := c == '\n' || c == '\r'
+
+/-- no line break character -/
+def NoNL (s : Str) : Prop := ∀ c ∈ s, isNL c = false
+
+theorem splitLinesAux_noNL (l rest acc : Str) (h : NoNL l) :
+    splitLinesAux (l ++ '\n' :: rest) acc = (acc.reverse ++ l) :: splitLinesAux rest [] := by
+  induction l generalizing acc with
+  | nil => simp [splitLinesAux]
+  | cons c l ih =>
+    have hc : (c == '\n') = false := by
+      have := h c (by simp)
+      simp [isNL] at this; simp [this.1]
+    simp only [List.cons_append, splitLinesAux, hc, Bool.false_eq_true, if_false]
+    rw [ih _ (fun d hd => h d (by simp [hd]))]
+    simp
+
+theorem splitLinesAux_last (l acc : Str) (h : NoNL l) :
+    splitLinesAux l acc = [acc.reverse ++ l] := by
+  induction l generalizing acc with
+  | nil => simp [splitLinesAux]
+  | cons c l ih =>
+    have hc : (c == '\n') = false := by
+      have := h c (by simp)
+      simp [isNL] at this; simp [this.1]
+    simp only [splitLinesAux, hc, Bool.false_eq_true, if_false]
+    rw [ih _ (fun d hd => h d (by simp [hd]))]
+    simp
+
+theorem splitLines_joinLines (L : List Str) (hne : L ≠ []) (h : ∀ l ∈ L, NoNL l) :
+    splitLines (joinLines L) = L := by
+  induction L with
+  | nil => exact absurd rfl hne
+  | cons l ls ih =>
+    cases ls with
+    | nil =>
+      simp only [joinLines, splitLines]
+      rw [splitLinesAux_last l [] (h l (by simp))]; simp
+    | cons m ms =>
+      simp only [joinLines, splitLines]
+      rw [splitLinesAux_noNL l _ [] (h l (by simp))]
+      have := ih (by simp) (fun x hx => h x (by simp [hx]))
+      simp only [splitLines] at this
+      rw [this]; simp
+
+theorem joinLines_snoc (L : List Str) (l : Str) :
+    joinLines (L ++ [l]) = if L = [] then l else joinLines L ++ '\n' :: l := by
+  induction L with
+  | nil => simp [joinLines]
+  | cons a as ih =>
+    cases as with
+    | nil => simp [joinLines]
+    | cons b bs =>
+      have : joinLines (a :: b :: bs ++ [l]) = a ++ '\n' :: joinLines (b :: bs ++ [l]) := by
+        simp [joinLines]
+      rw [this, ih]; simp [joinLines]
+
+theorem rstripNL_snoc_nl (s : Str) (c : Char) (hc : isNL c = false) :
+    rstripNL (s ++ [c] ++ ['\n']) = s ++ [c] := by
+  have hc' : (c == '\n' || c == '\r') = false := hc
+  simp [rstripNL, List.dropWhile, hc']
+
+/-- `StructureParser.parse(StructureParser.tostring(·))` hands `parseLines` the very lines that
+`toLines` produced, when no line contains a line break and the last line is not empty -/
+theorem ofText_toText (L : List Str) (hne : L ≠ []) (h : ∀ l ∈ L, NoNL l)
+    (hlast : L.getLast hne ≠ []) : ofText (toText L) = L := by
+  obtain ⟨init, last, rfl⟩ : ∃ init last, L = init ++ [last] :=
+    ⟨L.dropLast, L.getLast hne, (List.dropLast_append_getLast hne).symm⟩
+  have hl : last ≠ [] := by simpa using hlast
+  obtain ⟨pre, c, rfl⟩ : ∃ pre c, last = pre ++ [c] :=
+    ⟨last.dropLast, last.getLast hl, (List.dropLast_append_getLast hl).symm⟩
+  have hc : isNL c = false := h (pre ++ [c]) (by simp) c (by simp)
+  have e : ∃ s, joinLines (init ++ [pre ++ [c]]) = s ++ [c] := by
+    rw [joinLines_snoc]; split
+    · exact ⟨pre, rfl⟩
+    · exact ⟨joinLines init ++ '\n' :: pre, by simp⟩
+  obtain ⟨s, hs⟩ := e
+  unfold ofText toText
+  rw [hs, rstripNL_snoc_nl s c hc, ← hs, splitLines_joinLines _ hne h]
+
+
+
+/-! ## `%g` tokens are non-empty and blank-free; canonical integers -/
+
+theorem NoWs_stripZeros {ds : Str} (h : NoWs ds) : NoWs (stripZeros ds) := by
+  intro c hc
+  unfold stripZeros at hc
+  rw [List.mem_reverse] at hc
+  exact h c (List.mem_reverse.1 ((List.dropWhile_sublist _).subset hc))
+
+theorem NoWs_fracPart {ds : Str} (h : NoWs ds) : NoWs (fracPart ds) := by
+  unfold fracPart
+  simp only
+  split
+  · exact NoWs_nil
+  · exact NoWs_cons (by decide) (NoWs_stripZeros h)
+
+theorem NoWs_expStr (X : Int) : NoWs (expStr X) := by
+  unfold expStr
+  apply NoWs_cons (by decide)
+  apply NoWs_cons (by split <;> decide)
+  split
+  · exact NoWs_cons (by decide) (NoWs_of_allDigits (allDigits_natDigits _))
+  · exact NoWs_of_allDigits (allDigits_natDigits _)
+
+theorem NoWs_gBody (P : Nat) (X : Int) (m : Nat) : NoWs (gBody P X m) := by
+  unfold gBody
+  split
+  · exact NoWs_append (NoWs_of_allDigits (allDigits_natDigits _))
+      (NoWs_fracPart (NoWs_of_allDigits (allDigits_fixDigits _ _)))
+  · exact NoWs_append (NoWs_append (NoWs_of_allDigits (allDigits_natDigits _))
+      (NoWs_fracPart (NoWs_of_allDigits (allDigits_fixDigits _ _)))) (NoWs_expStr _)
+
+theorem gBody_ne_nil (P : Nat) (X : Int) (m : Nat) : gBody P X m ≠ [] := by
+  unfold gBody
+  split
+  · simp [natDigits_ne_nil]
+  · simp [natDigits_ne_nil]
+
+theorem IsTok_fmtG (P : Nat) (x : Rat) : IsTok (fmtG P x) := by
+  unfold fmtG fmtGbody
+  split
+  · exact ⟨by simp, NoWs_cons (by decide) NoWs_nil⟩
+  · exact ⟨by simp [gBody_ne_nil], NoWs_append (NoWs_signStr _) (NoWs_gBody _ _ _)⟩
+
+theorem IsTok_fmtFbody (p : Nat) (x : Rat) : IsTok (fmtFbody p x) :=
+  ⟨fmtFbody_ne_nil p x, NoWs_fmtFbody p x⟩
+
+theorem isWs_of_isGraphA {c : Char} (h : isGraphA c = true) : isWs c = false := by
+  simp only [isGraphA, Bool.and_eq_true, decide_eq_true_eq] at h
+  simp only [isWs, Bool.or_eq_false_iff, Bool.and_eq_false_iff, decide_eq_false_iff_not, beq_eq_false_iff_ne]
+  omega
+
+theorem natDigits_head_nonzero (n : Nat) (hn : 0 < n) :
+    ∃ c cs, natDigits n = c :: cs ∧ c ≠ '0' ∧ isDigit c = true := by
+  induction n using Nat.strongRecOn with
+  | _ n ih =>
+    unfold natDigits
+    split
+    · refine ⟨digitChar n, [], rfl, ?_, isDigit_digitChar n⟩
+      intro h
+      have := congrArg Char.toNat h
+      rw [digitChar_toNat] at this
+      simp at this; omega
+    · obtain ⟨c, cs, h1, h2, h3⟩ := ih (n / 10) (by omega) (by omega)
+      exact ⟨c, cs ++ [digitChar n], by simp [h1], h2, h3⟩
+
+theorem natDigits_zero : natDigits 0 = ['0'] := by
+  unfold natDigits; simp [digitChar]
+
+
+
+/-! ## `%g` parses back to the value it denotes -/
+
+theorem scale10_eq_zpow (v : Rat) (e : Int) : scale10 v e = v * (10 : Rat) ^ e := by
+  unfold scale10
+  split
+  · rename_i h
+    have : e = (e.toNat : Int) := (Int.toNat_of_nonneg h).symm
+    conv_rhs => rw [this, zpow_natCast]
+    push_cast; rfl
+  · rename_i h
+    have h' : 0 ≤ -e := by omega
+    have : e = -((-e).toNat : Int) := by rw [Int.toNat_of_nonneg h']; ring
+    conv_rhs => rw [this, zpow_neg, zpow_natCast]
+    push_cast; rw [div_eq_mul_inv]
+
+theorem takeWhile_all {α} (p : α → Bool) (l : List α) : ∀ c ∈ l.takeWhile p, p c = true := by
+  induction l with
+  | nil => intro c h; cases h
+  | cons a l ih =>
+    intro c h
+    by_cases ha : p a = true
+    · simp [List.takeWhile, ha] at h
+      rcases h with rfl | h
+      · exact ha
+      · exact ih c h
+    · simp [List.takeWhile, ha] at h
+
+theorem stripZeros_spec (ds : Str) :
+    ∃ j, ds = stripZeros ds ++ List.replicate j '0' := by
+  unfold stripZeros
+  have h := List.takeWhile_append_dropWhile (p := (· == '0')) (l := ds.reverse)
+  have ht : ∀ c ∈ ds.reverse.takeWhile (· == '0'), c = '0' := by
+    intro c hc
+    have := takeWhile_all (· == '0') ds.reverse c hc
+    simpa using this
+  refine ⟨(ds.reverse.takeWhile (· == '0')).length, ?_⟩
+  have e : ds.reverse.takeWhile (· == '0') = List.replicate (ds.reverse.takeWhile (· == '0')).length '0' :=
+    List.eq_replicate_of_mem ht
+  have h2 : ds = (ds.reverse.dropWhile (· == '0')).reverse ++ (ds.reverse.takeWhile (· == '0')).reverse := by
+    have h3 := congrArg List.reverse h
+    rw [List.reverse_append, List.reverse_reverse] at h3
+    exact h3.symm
+  conv_lhs => rw [h2]
+  congr 1
+  rw [e]; simp
+
+theorem numOf_replicate_zero (j : Nat) : numOf (List.replicate j '0') = 0 := by
+  induction j with
+  | zero => rfl
+  | succ j ih =>
+    rw [List.replicate_succ', numOf_snoc, ih]; simp [digitVal]
+
+theorem allDigits_stripZeros {ds : Str} (h : allDigits ds = true) : allDigits (stripZeros ds) = true := by
+  obtain ⟨j, hj⟩ := stripZeros_spec ds
+  rw [hj, allDigits_append] at h
+  simp at h; exact h.1
+
+/-- value of a fraction digit string is unchanged by removing trailing zeros -/
+theorem frac_value (q : Nat) (F : Str) :
+    ((q * 10 ^ (stripZeros F).length + numOf (stripZeros F) : Nat) : Rat) / ((10 ^ (stripZeros F).length : Nat) : Rat)
+      = ((q * 10 ^ F.length + numOf F : Nat) : Rat) / ((10 ^ F.length : Nat) : Rat) := by
+  obtain ⟨j, hj⟩ := stripZeros_spec F
+  generalize stripZeros F = G at hj
+  subst hj
+  rw [numOf_append, numOf_replicate_zero, List.length_append, List.length_replicate]
+  have h1 := ten_pow_pos_rat G.length
+  have h2 := ten_pow_pos_rat (G.length + j)
+  rw [div_eq_div_iff (ne_of_gt h1) (ne_of_gt h2)]
+  push_cast
+  ring
+
+/-- integer part, optional fraction without trailing zeros: the fixed notation of `%g` -/
+theorem parseUnsigned_gfixed (neg : Bool) (q : Nat) (F : Str) (hF : allDigits F = true) :
+    parseUnsigned neg (natDigits q ++ fracPart F) =
+      some ((if neg then -1 else 1) * (((q * 10 ^ F.length + numOf F : Nat) : Rat) / ((10 ^ F.length : Nat) : Rat))) := by
+  have hi := allDigits_natDigits q
+  have hne := natDigits_ne_nil q
+  unfold fracPart
+  simp only
+  split
+  · rename_i he
+    have he' : stripZeros F = [] := by simpa using he
+    rw [List.append_nil, parseUnsigned_int neg _ hi hne, decValue_zero, numOf_natDigits]
+    have := frac_value q F
+    rw [he'] at this
+    simp only [List.length_nil, pow_zero, numOf_nil] at this ⊢
+    rw [← this]
+  · rw [parseUnsigned_fixed neg _ _ hi (allDigits_stripZeros hF) hne, decValue_zero, numOf_natDigits,
+      frac_value]
+
+theorem numOf_cons_zero (ds : Str) : numOf ('0' :: ds) = numOf ds := by
+  simp [numOf, digitVal]
+
+theorem parseInt_signed (neg : Bool) (ds : Str) (hd : allDigits ds = true) (hne : ds ≠ []) :
+    parseInt ((if neg then '-' else '+') :: ds) = some (if neg then -(numOf ds : Int) else (numOf ds : Int)) := by
+  cases neg <;> simp [parseInt, parseDigitsInt, hd, isEmpty_false_of_ne hne]
+
+theorem parseInt_expStr (X : Int) : parseInt ((expStr X).drop 1) = some X := by
+  unfold expStr
+  simp only [List.drop_succ_cons, List.drop_zero]
+  have hd := allDigits_natDigits X.natAbs
+  have hne := natDigits_ne_nil X.natAbs
+  have hnum := numOf_natDigits X.natAbs
+  have key : ∀ ds : Str, allDigits ds = true → ds ≠ [] → numOf ds = X.natAbs →
+      parseInt ((if X < 0 then '-' else '+') :: ds) = some X := by
+    intro ds h1 h2 h3
+    have := parseInt_signed (decide (X < 0)) ds h1 h2
+    simp only [decide_eq_true_eq] at this
+    rw [this, h3]
+    by_cases hx : X < 0
+    · rw [if_pos hx]; congr 1; omega
+    · rw [if_neg hx]; congr 1; omega
+  by_cases h10 : X.natAbs < 10
+  · rw [if_pos h10]
+    exact key _ (by simp [allDigits, isDigit] at hd ⊢; exact hd) (by simp) (by rw [numOf_cons_zero, hnum])
+  · rw [if_neg h10]
+    exact key _ hd hne hnum
+
+
+
+theorem decValue_eq (neg : Bool) (ip fp : Str) (e : Int) :
+    decValue neg ip fp e = (if neg then -1 else 1) *
+      scale10 (((numOf ip * 10 ^ fp.length + numOf fp : Nat) : Rat) / ((10 ^ fp.length : Nat) : Rat)) e := by
+  cases neg <;> simp [decValue]
+
+theorem expStr_eq (X : Int) : expStr X = 'e' :: (expStr X).drop 1 := by
+  unfold expStr; rfl
+
+theorem parseUnsigned_gexp (neg : Bool) (q : Nat) (F : Str) (hF : allDigits F = true) (X : Int) :
+    parseUnsigned neg (natDigits q ++ fracPart F ++ expStr X) =
+      some ((if neg then -1 else 1) *
+        scale10 (((q * 10 ^ F.length + numOf F : Nat) : Rat) / ((10 ^ F.length : Nat) : Rat)) X) := by
+  have hi := allDigits_natDigits q
+  have hne := natDigits_ne_nil q
+  rw [expStr_eq]
+  unfold fracPart
+  simp only
+  split
+  · rename_i he
+    have he' : stripZeros F = [] := by simpa using he
+    rw [List.append_nil, parseUnsigned_int_exp neg _ _ hi hne, parseInt_expStr, Option.map_some,
+      decValue_eq, numOf_natDigits]
+    have := frac_value q F
+    rw [he'] at this
+    simp only [List.length_nil, numOf_nil] at this ⊢
+    rw [this]
+  · rw [List.append_assoc, List.cons_append, parseUnsigned_fixed_exp neg _ _ _ hi (allDigits_stripZeros hF) hne,
+      parseInt_expStr, Option.map_some, decValue_eq, numOf_natDigits, frac_value]
+
+theorem div_mod_value (m k : Nat) :
+    ((m / 10 ^ k * 10 ^ (fixDigits k m).length + numOf (fixDigits k m) : Nat) : Rat)
+      / ((10 ^ (fixDigits k m).length : Nat) : Rat) = (m : Rat) / ((10 ^ k : Nat) : Rat) := by
+  rw [length_fixDigits, numOf_fixDigits, Nat.div_add_mod']
+
+theorem natDigits_append_head (n : Nat) (s : Str) :
+    ∃ c cs, natDigits n ++ s = c :: cs ∧ isDigit c = true := by
+  obtain ⟨c, cs, h, hc⟩ := natDigits_head n
+  exact ⟨c, cs ++ s, by rw [h]; rfl, hc⟩
+
+/-- `float("%.Pg" % x)` is the number `%.Pg` denotes (`x` rounded to `P` significant digits) -/
+theorem parseDec_fmtGbody (P : Nat) (hP : 1 ≤ P) (x : Rat) : parseDec (fmtGbody P x) = some (roundSigP P x) := by
+  unfold fmtGbody roundSigP
+  by_cases hx : x = 0
+  · simp only [hx, if_true]
+    simp [parseDec, parseUnsigned, parseFrac, parseExp, isDigit, decValue, scale10, numOf, digitVal]
+  simp only [hx, if_false]
+  generalize sci P x.num.natAbs x.den = r
+  obtain ⟨X, m⟩ := r
+  simp only
+  have hsign : (if x < 0 then -scale10 (m : Rat) (X - (P : Int) + 1) else scale10 (m : Rat) (X - (P : Int) + 1))
+      = (if decide (x < 0) = true then -1 else 1) * scale10 (m : Rat) (X - (P : Int) + 1) := by
+    by_cases h : x < 0 <;> simp [h]
+  rw [hsign]
+  unfold gBody
+  split
+  · rename_i hfix
+    simp only
+    obtain ⟨c, cs, hcs, hc⟩ := natDigits_append_head (m / 10 ^ ((P : Int) - 1 - X).toNat)
+      (fracPart (fixDigits ((P : Int) - 1 - X).toNat m))
+    rw [hcs, parseDec_sign _ c cs hc, ← hcs, parseUnsigned_gfixed _ _ _ (allDigits_fixDigits _ _), div_mod_value]
+    congr 2
+    rw [scale10_eq_zpow]
+    have hk : (((P : Int) - 1 - X).toNat : Int) = (P : Int) - 1 - X := Int.toNat_of_nonneg (by omega)
+    have e : X - (P : Int) + 1 = -((((P : Int) - 1 - X).toNat : Nat) : Int) := by rw [hk]; ring
+    rw [e, zpow_neg, zpow_natCast, div_eq_mul_inv]
+    push_cast; rfl
+  · obtain ⟨c, cs, hcs, hc⟩ := natDigits_append_head (m / 10 ^ (P - 1))
+      (fracPart (fixDigits (P - 1) m) ++ expStr X)
+    rw [← List.append_assoc] at hcs
+    rw [hcs, parseDec_sign _ c cs hc, ← hcs, parseUnsigned_gexp _ _ _ (allDigits_fixDigits _ _), div_mod_value]
+    congr 2
+    rw [scale10_eq_zpow, scale10_eq_zpow]
+    have e : X - (P : Int) + 1 = X - (((P - 1 : Nat)) : Int) := by omega
+    rw [e, zpow_sub₀ (by norm_num : (10 : Rat) ≠ 0), zpow_natCast]
+    push_cast
+    field_simp
+
+/-- `float("%.Pg" % x)` = `x` rounded to `P` significant digits, for every precision -/
+theorem parseDec_fmtG (P : Nat) (x : Rat) : parseDec (fmtG P x) = some (roundSig P x) := by
+  unfold fmtG roundSig
+  exact parseDec_fmtGbody _ (by split <;> omega) x
+
+
+
+/-! ## more on blanks: decomposition of a string into blanks · core · blanks -/
+
+/-- non-empty, first and last character not blank -/
+def Core (m : Str) : Prop := (∃ c cs, m = c :: cs ∧ isWs c = false) ∧ (∃ cs c, m = cs ++ [c] ∧ isWs c = false)
+
+theorem dropWhile_eq_nil_iff_all {α} (p : α → Bool) (l : List α) : l.dropWhile p = [] ↔ ∀ c ∈ l, p c = true := by
+  induction l with
+  | nil => simp
+  | cons a l ih =>
+    by_cases ha : p a = true
+    · simp [List.dropWhile, ha, ih]
+    · simp [List.dropWhile, ha]
+
+theorem lstrip_eq_nil_iff (s : Str) : lstrip s = [] ↔ AllWs s := dropWhile_eq_nil_iff_all _ _
+
+theorem lstrip_head (s : Str) (h : lstrip s ≠ []) : ∃ c cs, lstrip s = c :: cs ∧ isWs c = false := by
+  unfold lstrip at *
+  cases hd : s.dropWhile isWs with
+  | nil => exact absurd hd h
+  | cons c cs =>
+    refine ⟨c, cs, rfl, ?_⟩
+    have := List.head_dropWhile_not isWs (l := s) (by rw [hd]; simp)
+    simpa [hd] using this
+
+theorem lstrip_split (s : Str) : ∃ a, AllWs a ∧ s = a ++ lstrip s :=
+  ⟨s.takeWhile isWs, takeWhile_all isWs s, (List.takeWhile_append_dropWhile (p := isWs) (l := s)).symm⟩
+
+theorem rstrip_split (s : Str) : ∃ b, AllWs b ∧ s = rstrip s ++ b := by
+  obtain ⟨a, ha, h⟩ := lstrip_split s.reverse
+  refine ⟨a.reverse, fun c hc => ha c (List.mem_reverse.1 hc), ?_⟩
+  have := congrArg List.reverse h
+  simpa [rstrip, lstrip] using this
+
+theorem rstrip_last (s : Str) (h : rstrip s ≠ []) : ∃ cs c, rstrip s = cs ++ [c] ∧ isWs c = false := by
+  have h' : lstrip s.reverse ≠ [] := by
+    intro e; apply h; simp [rstrip]; simpa [lstrip] using e
+  obtain ⟨c, cs, hc, hw⟩ := lstrip_head s.reverse h'
+  refine ⟨cs.reverse, c, ?_, hw⟩
+  simp only [rstrip]
+  have : List.dropWhile isWs s.reverse = c :: cs := hc
+  rw [this]; simp
+
+/-- every string is all blanks, or blanks ++ core ++ blanks -/
+theorem ws_decomp (s : Str) : AllWs s ∨ ∃ a m b, s = a ++ m ++ b ∧ AllWs a ∧ AllWs b ∧ Core m := by
+  by_cases h : lstrip s = []
+  · left; exact (lstrip_eq_nil_iff s).1 h
+  · right
+    obtain ⟨a, ha, hs⟩ := lstrip_split s
+    obtain ⟨c, cs, hc, hw⟩ := lstrip_head s h
+    obtain ⟨b, hb, hr⟩ := rstrip_split (lstrip s)
+    have hne : rstrip (lstrip s) ≠ [] := by
+      intro e
+      rw [e, List.nil_append] at hr
+      rw [hr] at hc
+      have := hb c (by rw [hc]; simp)
+      rw [hw] at this; cases this
+    obtain ⟨ds, d, hd, hdw⟩ := rstrip_last (lstrip s) hne
+    refine ⟨a, rstrip (lstrip s), b, ?_, ha, hb, ?_, ⟨ds, d, hd, hdw⟩⟩
+    · rw [List.append_assoc, ← hr]; exact hs
+    · -- head of rstrip (lstrip s) is the head of lstrip s
+      cases hm : rstrip (lstrip s) with
+      | nil => exact absurd hm hne
+      | cons e es =>
+        rw [hm] at hr
+        rw [hr] at hc
+        simp at hc
+        exact ⟨e, es, rfl, hc.1 ▸ hw⟩
+
+theorem lstrip_core {a m s : Str} (ha : AllWs a) (hm : Core m) : lstrip (a ++ m ++ s) = m ++ s := by
+  obtain ⟨⟨c, cs, rfl, hc⟩, _⟩ := hm
+  rw [List.append_assoc, lstrip_allWs_append ha]
+  simp [lstrip, hc]
+
+theorem rstrip_core {b m s : Str} (hb : AllWs b) (hm : Core m) : rstrip (s ++ m ++ b) = s ++ m := by
+  obtain ⟨_, ⟨cs, c, rfl, hc⟩⟩ := hm
+  rw [rstrip_append_allWs hb]
+  simp [rstrip, hc]
+
+theorem strip_core {a b m : Str} (ha : AllWs a) (hb : AllWs b) (hm : Core m) : strip (a ++ m ++ b) = m := by
+  have h1 : lstrip (a ++ m ++ b) = m ++ b := lstrip_core ha hm
+  have h2 := rstrip_core (s := []) hb hm
+  simp only [List.nil_append] at h2
+  rw [strip, h1, h2]
+
+theorem strip_allWs {s : Str} (h : AllWs s) : strip s = [] := by
+  have : lstrip s = [] := (lstrip_eq_nil_iff s).2 h
+  rw [strip, this]; rfl
+
+theorem rstrip_allWs {s : Str} (h : AllWs s) : rstrip s = [] := by
+  have := rstrip_append_allWs (s := []) h
+  simpa [rstrip] using this
+
+/-- `strip` after `rstrip` is `strip` -/
+theorem strip_rstrip (s : Str) : strip (rstrip s) = strip s := by
+  rcases ws_decomp s with h | ⟨a, m, b, rfl, ha, hb, hm⟩
+  · rw [rstrip_allWs h, strip_allWs h]; rfl
+  · rw [rstrip_core hb hm, strip_core ha hb hm]
+    have := strip_core (b := []) ha (by intro c h; cases h) hm
+    simpa using this
+
+theorem strip_idem (s : Str) : strip (strip s) = strip s := by
+  rcases ws_decomp s with h | ⟨a, m, b, rfl, ha, hb, hm⟩
+  · rw [strip_allWs h]; rfl
+  · rw [strip_core ha hb hm]
+    have := strip_core (a := []) (b := []) (by intro c h; cases h) (by intro c h; cases h) hm
+    simpa using this
+
+/-- a token in front is kept by `rstrip` -/
+theorem rstrip_tok_append {t s : Str} (ht : IsTok t) : rstrip (t ++ s) = t ++ rstrip s := by
+  rcases ws_decomp s with h | ⟨a, m, b, rfl, ha, hb, hm⟩
+  · rw [rstrip_append_allWs h, rstrip_noWs ht.2, rstrip_allWs h, List.append_nil]
+  · have e : t ++ (a ++ m ++ b) = (t ++ a) ++ m ++ b := by simp
+    rw [e, rstrip_core hb hm, rstrip_core hb hm]; simp
+
+theorem lstrip_tok_append {t s : Str} (ht : IsTok t) : lstrip (t ++ s) = t ++ s := by
+  obtain ⟨hne, hnw⟩ := ht
+  cases t with
+  | nil => exact absurd rfl hne
+  | cons c t => simp [lstrip, hnw c (by simp)]
+
+/-- `strip(tok + s)` -/
+theorem strip_tok_append {t s : Str} (ht : IsTok t) : strip (t ++ s) = t ++ rstrip s := by
+  rw [strip, lstrip_tok_append ht, rstrip_tok_append ht]
+
+/-! ### `split()` ignores blanks at the ends; joined tokens -/
+
+theorem splitAux_allWs (b acc : Str) (hb : AllWs b) :
+    splitAux b acc = if acc.isEmpty then [] else [acc.reverse] := by
+  induction b generalizing acc with
+  | nil => rfl
+  | cons c b ih =>
+    have hc : isWs c = true := hb c (by simp)
+    have ih' := ih [] (fun d hd => hb d (by simp [hd]))
+    simp only [splitAux, hc, if_true]
+    split
+    · simpa using ih'
+    · rw [ih']; simp
+
+theorem splitAux_append_allWs (s b acc : Str) (hb : AllWs b) : splitAux (s ++ b) acc = splitAux s acc := by
+  induction s generalizing acc with
+  | nil => simp only [List.nil_append, splitAux]; exact splitAux_allWs b acc hb
+  | cons c s ih =>
+    simp only [List.cons_append, splitAux]
+    split
+    · split
+      · exact ih []
+      · rw [ih []]
+    · exact ih _
+
+theorem splitWs_append_allWs {s b : Str} (hb : AllWs b) : splitWs (s ++ b) = splitWs s :=
+  splitAux_append_allWs s b [] hb
+
+theorem splitWs_rstrip (s : Str) : splitWs (rstrip s) = splitWs s := by
+  obtain ⟨b, hb, h⟩ := rstrip_split s
+  conv_rhs => rw [h, splitWs_append_allWs hb]
+
+theorem splitWs_lstrip (s : Str) : splitWs (lstrip s) = splitWs s := by
+  obtain ⟨a, ha, h⟩ := lstrip_split s
+  conv_rhs => rw [h, splitWs_allWs_append ha]
+
+theorem splitWs_strip (s : Str) : splitWs (strip s) = splitWs s := by
+  rw [strip, splitWs_rstrip, splitWs_lstrip]
+
+/-- `"".join(s.split())` removes exactly the blanks -/
+theorem flatten_splitAux (s acc : Str) :
+    (splitAux s acc).flatten = acc.reverse ++ s.filter (fun c => !isWs c) := by
+  induction s generalizing acc with
+  | nil =>
+    simp only [splitAux, List.filter_nil, List.append_nil]
+    split
+    · rename_i h; have : acc = [] := by simpa using h
+      subst this; rfl
+    · simp
+  | cons c s ih =>
+    by_cases hc : isWs c = true
+    · simp only [splitAux, hc, if_true, List.filter_cons, Bool.not_true, Bool.false_eq_true, if_false]
+      split
+      · rename_i h; have : acc = [] := by simpa using h
+        subst this; simpa using ih []
+      · simp [ih []]
+    · have hc' : isWs c = false := by simpa using hc
+      simp only [splitAux, hc', Bool.false_eq_true, if_false, List.filter_cons, Bool.not_false, if_true]
+      rw [ih]; simp
+
+theorem flatten_splitWs (s : Str) : (splitWs s).flatten = s.filter (fun c => !isWs c) := by
+  have := flatten_splitAux s []
+  simpa [splitWs] using this
 
 
 end DS.Dec
